@@ -155,7 +155,8 @@ def run(ctx):
         # coordinates of a shared point agree to the accuracy with which the two regions
         # followed grad(psi): 1e-6 m at default tolerances, scaled for the deviations
         uo = side["mesh"]["user_options"]
-        qtol = max(1e-6, 300.0 * (2.0 * float(uo.get("follow_perpendicular_rtol", 2e-8)) + float(uo.get("follow_perpendicular_atol", 1e-8))) * 50)
+        qtol = 1e-6 * max(1.0, float(uo.get("follow_perpendicular_rtol", 2e-8)) / 2e-8,
+                          float(uo.get("follow_perpendicular_atol", 1e-8)) / 1e-8)
         probs, stats = topo.check_file(f, info, q=qtol, real=True)
         states += stats["cells"]
         transitions += stats["edges"]
